@@ -35,6 +35,30 @@ def type_match(type_input: Type, type_reference: type) -> bool:
     return isinstance(type_input, type) and issubclass(type_input, type_reference)
 
 
+def _is_subclass(cls: type, target: Type) -> bool:
+    """
+    The subclass relation behind `Type[target]`, for targets that are
+    annotations rather than plain classes (unions, generics, `None`, ...).
+    """
+    if target is Any or isinstance(target, TypeVar):
+        return True
+    if target is None:
+        target = type(None)
+    if sys.version_info >= (3, 10) and isinstance(target, types.UnionType):
+        return any(_is_subclass(cls, type_) for type_ in target.__args__)
+    origin = getattr(target, "__origin__", None)
+    if origin is Union:
+        return any(_is_subclass(cls, type_) for type_ in target.__args__)
+    if origin in (Literal, LiteralExtension):
+        return False  # literal values are not classes
+    if origin is not None:
+        target = origin  # e.g. `List[int]` -> `list`
+    try:
+        return issubclass(cls, target)
+    except TypeError:
+        return False
+
+
 def check_type(value: Any, attr_type: Type) -> bool:
     """
     Check whether a given object `value` matches the provided `attr_type`.
@@ -96,9 +120,7 @@ def check_type(value: Any, attr_type: Type) -> bool:
                         if not check_type(item, attr_type.__args__[i]):
                             return False
             elif attr_type.__origin__ == type:
-                if attr_type.__args__[0] is not Any and not issubclass(
-                    value, attr_type.__args__[0]
-                ):
+                if not _is_subclass(value, attr_type.__args__[0]):
                     return False
 
             return True
